@@ -288,6 +288,16 @@ func (r *Rec) Note(k string, v interface{}) {
 }
 func (r *Rec) Uncovered(s string) { r.mu.Lock(); r.uncovered = append(r.uncovered, s); r.mu.Unlock() }
 
+// Peek reports whether key is masked by a "known" finding without counting the hit.
+func (r *Rec) Peek(key string) bool {
+	for _, f := range r.findings {
+		if f.Status == "known" && f.re.MatchString(key) {
+			return true
+		}
+	}
+	return false
+}
+
 // Known reports whether key is masked by a "known" finding (and counts the hit).
 func (r *Rec) Known(key string) bool {
 	for _, f := range r.findings {
@@ -330,9 +340,11 @@ func (r *Rec) Report(layer, cell, key, detail string, dump interface{}) bool {
 
 func (r *Rec) writeViolation(sp *ReplaySpec) {
 	p := r.replayPath(sp.Key)
-	_ = os.MkdirAll(filepath.Dir(p), 0o755)
-	b, _ := json.MarshalIndent(sp, "", " ")
-	_ = os.WriteFile(p, b, 0o644)
+	if r.replay == nil { // a replay run never rewrites the saved cases
+		_ = os.MkdirAll(filepath.Dir(p), 0o755)
+		b, _ := json.MarshalIndent(sp, "", " ")
+		_ = os.WriteFile(p, b, 0o644)
+	}
 	r.mu.Lock()
 	r.violations[sp.Key] = Violation{sp.Key, sp.Detail, p}
 	r.mu.Unlock()
